@@ -46,6 +46,23 @@ WITNESSES = {
     "F-C01-f": (_w([("forRange", True, "i", ("num", 0.0), ("num", 6.0), ("num", 1.0),
                      [wr(12, ("index", [("num", 90.0), ("num", 91.0), ("num", 92.0), ("num", 93.0), ("num", 94.0), ("num", 95.0)], ("gvar", "i")))], {"nargs": 1})]),
                 "constant list of 6+ elements with a dynamic index yields the neighbouring element (jump table select operands swapped)"),
+    "F-C01-h": (_w([("gassign", "x", rd(12)), ("gassign", "y", ("ifexp", ("bin", "sgt", ("gvar", "x"), ("num", -100.0)), ("gvar", "x"), ("call", "fa", [("gvar", "x")]))), wr(28, ("gvar", "y"))],
+                   funcs=[{"name": "fa", "params": ["a"], "body": [wr(3, ("lvar", "a")), ("ret", ("bin", "add", ("lvar", "a"), ("num", 1.0)))]}]),
+                "both arms of a conditional expression are evaluated (select): a call in the arm that is not chosen is executed, and emitted twice"),
+}
+
+
+# programs on which repaired defects showed (known_findings.json, status fixed): run first, must behave like the source
+K1 = ("num", 1.0, {"name": "K1"})
+K3 = ("num", 3.0, {"name": "K3"})
+REGRESSIONS = {
+    "F-C01-g not CONST": {"funcs": [], "decls": ["K1 = 1"], "main": [("ite", ("un", "not", K1), [wr(12, ("num", 1.0))], []), wr(28, ("num", 0.0))]},
+    "F-C01-g not CONST else": {"funcs": [], "decls": ["K1 = 1"], "main": [("ite", ("un", "not", K1), [wr(12, ("num", 1.0))], [wr(12, ("num", 2.0))]), wr(28, ("num", 0.0))]},
+    "F-C01-g not (CONST > c)": {"funcs": [], "decls": ["K3 = 3"], "main": [("ite", ("un", "not", ("bin", "sgt", K3, ("num", 2.0))), [wr(12, ("num", 1.0))], []), wr(28, ("num", 0.0))]},
+    "F-C01-e break under two ifs": {"funcs": [], "decls": [], "main": [("gassign", "n", ("num", 0.0)), ("while", ("bin", "slt", ("gvar", "n"), ("num", 4.0)), [
+        ("gassign", "n", ("bin", "add", ("gvar", "n"), ("num", 1.0))),
+        ("ite", ("bin", "sgt", rd(12), ("num", 1.0)), [wr(3, ("gvar", "n")), ("ite", ("bin", "sgt", rd(28), ("num", 1.0)), [wr(1, ("gvar", "n")), ("brk",)], [])], []),
+        wr(12, ("gvar", "n"))])]},
 }
 
 
@@ -58,9 +75,18 @@ def run(tier: str, seed: int) -> int:
     drv = Driver()
     r = rng_for(PROP, seed)
     budget = whole.QUICK_BUDGET if tier == "quick" else whole.THOROUGH_BUDGET
+    failures = []
+    for rid, rprog in REGRESSIONS.items():
+        rsrc = progen.print_program(rprog)
+        st, d = whole.judge_equiv(drv, rprog, rsrc, [0.0, 1.0, 2.0, 5.0, 6.0, 7.0], whole.default_opts(append_version=False), [1, 2, 3, 4], budget)
+        chk.bump(f"regression:{st}")
+        chk.count(("regression", rsrc), nontrivial=True)
+        if st != "ok":
+            failures.append({"what": f"regression corpus ({rid}): " + (f"emitted code and source disagree: {d['verdict']}" if st == "bad" else f"not comparable any more ({st})"),
+                             "profile": "regression", "src": rsrc, "prog": progen.jprogram(rprog), "opts": whole.default_opts(append_version=False),
+                             "env_seed": (d or {}).get("env_seed", 1), "pool": [0.0, 1.0, 2.0, 5.0, 6.0, 7.0], "budget": budget, "code": (d or {}).get("code")})
     plan = [("core", 240 if tier == "quick" else 12000), ("funcs", 120 if tier == "quick" else 6000), ("calls", 160 if tier == "quick" else 8000)]
     n_env = 3 if tier == "quick" else 8
-    failures = []
     feats = {}
     for kind, n in plan:
         for i in range(n):
